@@ -24,6 +24,10 @@ RULES = {
     "C03-P1": "index maps to/from the boundary and inverse adjacency relations are filled in lock-step",
     "C03-O1": "a face is on the border iff it has fewer than two incident cells; boundary / interior lists are if/else partitions",
     "C03-M1": "border flags of vertices / edges are set from every vertex / every side of every border face",
+    "C03-L5": "the cold path of a lazily cached accessor only builds the cache, it never answers by itself",
+    "C03-W1": "rotation around an edge: the sort keys handed out by the two walks (and the key of the starting cell) are pairwise distinct",
+    "C03-P2": "the index maps of the boundary range over exactly the border classification (boundary_faces / their vertices / boundary_edges)",
+    "C03-D1": "boundary-connectivity queries translate their argument with m2b_<kind> and every result with b2m_<kind of the result>",
 }
 
 
@@ -38,6 +42,9 @@ def run(ctx):
     p1_maps(ctx)
     o1_border(ctx)
     m1_marks(ctx)
+    w1_edge_rotation(ctx)
+    p2_map_domains(ctx)
+    d1_boundary_translation(ctx)
 
 
 def t1_tables(ctx):
@@ -220,3 +227,142 @@ def m1_marks(ctx):
                                 ok = n_ok and sorted(o for o in offs if o is not None) == [0, 1] and len(offs) == 2 and None not in offs
     ctx.check(ok, "C03-M1", site, "border edge flags are not set for every side (i, i+1 mod n) of every border face",
               "an edge is on the border iff it is a side of a border face")
+
+
+# ---------------------------------------------------------------------------- W1
+def w1_edge_rotation(ctx):
+    fn = ctx.repo.func(VOL, "VolumeMesh._Connectivity._sort_edge_neighborhoods")
+    site = ctx.site(VOL, fn)
+    walks = [st for st in au.stmts(fn.body) if isinstance(st, ast.While)]
+    if len(walks) != 2:
+        ctx.fail("C03-W1", site, f"{len(walks)} walk loop(s) around an edge instead of the two directions", "")
+        return
+    info = {}   # key dict name -> list of (first key, step) per walk
+    pre = {}    # key dict name -> set of constant keys assigned outside the walks
+    for st in au.stmts(fn.body):
+        if isinstance(st, ast.Assign) and isinstance(st.targets[0], ast.Subscript) and isinstance(st.targets[0].value, ast.Name) \
+                and not any(a in walks for a in au.ancestors(st)) and isinstance(st.value, ast.Name):
+            d = st.targets[0].value.id
+            # value of the counter at this point: last constant assignment before in the same block
+            blk, _ = au.enclosing_block(st)
+            val = None
+            for s2 in blk[:[id(x) for x in blk].index(id(st))]:
+                if isinstance(s2, ast.Assign) and isinstance(s2.targets[0], ast.Name) and s2.targets[0].id == st.value.id:
+                    val = au.const(s2.value)
+            pre.setdefault(d, set()).add(val)
+    for w in walks:
+        blk, _ = au.enclosing_block(w)
+        before = blk[:[id(x) for x in blk].index(id(w))]
+        for i, st in enumerate(w.body):
+            if isinstance(st, ast.Assign) and isinstance(st.targets[0], ast.Subscript) and isinstance(st.targets[0].value, ast.Name) \
+                    and isinstance(st.value, ast.Name):
+                d, var = st.targets[0].value.id, st.value.id
+                init = None
+                for s2 in before:
+                    if isinstance(s2, ast.Assign) and isinstance(s2.targets[0], ast.Name) and s2.targets[0].id == var:
+                        init = au.const(s2.value)
+                steps = [(j, s2) for j, s2 in enumerate(w.body) if isinstance(s2, ast.AugAssign) and isinstance(s2.target, ast.Name)
+                         and s2.target.id == var and au.const(s2.value) == 1 and isinstance(s2.op, (ast.Add, ast.Sub))]
+                if init is None or len(steps) != 1:
+                    info.setdefault(d, []).append(None)
+                    continue
+                j, sst = steps[0]
+                step = 1 if isinstance(sst.op, ast.Add) else -1
+                first = init + step if j < i else init
+                info.setdefault(d, []).append((first, step))
+    n = 0
+    for d, ws in sorted(info.items()):
+        n += 1
+        if len(ws) != 2 or None in ws:
+            ctx.fail("C03-W1", site, f"sort keys `{d}` are not handed out by one counter stepped once per iteration in each of the two walks", "")
+            continue
+        (f1, s1), (f2, s2) = ws
+        extra = {x for x in pre.get(d, set()) if x is not None}
+        # key sets {f1 + t*s1}, {f2 + t*s2} (t >= 0) and the pre-assigned keys must be pairwise disjoint
+        in_seq = lambda x, f, st_: (x - f) * st_ >= 0
+        disjoint = s1 == -s2 and ((s1 > 0 and f1 > f2) or (s1 < 0 and f1 < f2)) \
+            and not any(in_seq(x, f1, s1) or in_seq(x, f2, s2) for x in extra)
+        ctx.check(disjoint, "C03-W1", site,
+                  f"the two walks around an edge hand out overlapping sort keys in `{d}` (first keys {f1} and {f2}, steps {s1:+d} and {s2:+d}, "
+                  f"preset {sorted(extra)})",
+                  "two elements with the same key stay in index order: the rotational order around the edge is lost",
+                  note=f"{d}: keys {f1},{f1+s1},.. and {f2},{f2+s2},.. disjoint")
+    ctx.check(n >= 2, "C03-W1", site, "cell and face sort keys of the rotation around an edge not found", "")
+    sorts = [c for c in au.calls(fn) if au.call_tail(c) == "sort"]
+    fields = {c.func.value.value.attr for c in sorts if isinstance(c.func.value, ast.Subscript) and au.is_self_attr(c.func.value.value)}
+    ctx.check(fields == {"_adjE2C", "_adjE2F"}, "C03-W1", site, f"tables sorted around an edge: {sorted(fields)} (expected _adjE2C and _adjE2F)", "")
+
+
+# ---------------------------------------------------------------------------- P2
+def p2_map_domains(ctx):
+    repo = ctx.repo
+    fn = repo.func(VOL, "VolumeMesh._BoundaryConnectivity.__init__")
+    ok = False
+    for st in au.stmts(fn.body):
+        if isinstance(st, ast.For) and any(isinstance(s, ast.Assign) and isinstance(s.targets[0], ast.Subscript)
+                                           and au.is_self_attr(s.targets[0].value, "m2b_edge") for s in au.stmts(st.body)):
+            it = st.iter
+            ok = au.src(it) in ("self.complete_mesh.boundary_edges",) and isinstance(st.target, ast.Name) \
+                and not any(isinstance(s, ast.Continue) for s in au.stmts(st.body))
+    ctx.check(ok, "C03-P2", ctx.site(VOL, fn), "the edge maps of the boundary are not built from complete_mesh.boundary_edges",
+              "the maps must cover exactly the border edges: an interior edge joining two border vertices is not an edge of the "
+              "boundary surface (edge_id gives None for it and the maps stop being inverse bijections)", note="edge maps over boundary_edges")
+    for modname, q, mesh in ((VOL, "VolumeMesh._BoundaryConnectivity._extract_surface_boundary", "self.complete_mesh"),
+                             (BORDER, "extract_boundary_of_volume", "mesh")):
+        fn = repo.func(modname, q)
+        site = ctx.site(modname, fn)
+        loops = [st for st in au.stmts(fn.body) if isinstance(st, ast.For)]
+        face_loop = [st for st in loops if au.src(st.iter) in (f"{mesh}.boundary_faces", f"enumerate({mesh}.boundary_faces)")]
+        okf = False
+        vset = None
+        for lp in face_loop:
+            tgt = lp.target.elts[-1].id if isinstance(lp.target, ast.Tuple) else lp.target.id
+            for s in lp.body:
+                if isinstance(s, ast.For) and au.src(s.iter) == f"{mesh}.faces[{tgt}]" and isinstance(s.target, ast.Name):
+                    for c in au.calls(s):
+                        if au.call_tail(c) == "add" and isinstance(c.func.value, ast.Name) and au.src(c.args[0]) == s.target.id \
+                                and not au.guards(c, stop=lp):
+                            okf, vset = True, c.func.value.id
+        ctx.check(okf, "C03-P2", site, f"{fn.name}: boundary vertices are not collected from every vertex of every border face", "")
+        okv = any(isinstance(st.iter, ast.Call) and au.call_tail(st.iter) == "enumerate" and st.iter.args
+                  and au.src(st.iter.args[0]) == vset for st in loops) if vset else False
+        ctx.check(okv, "C03-P2", site, f"{fn.name}: the vertex maps do not range over the collected border vertices", "")
+
+
+# ---------------------------------------------------------------------------- D1
+def d1_boundary_translation(ctx):
+    repo = ctx.repo
+    kinds = {  # method -> (kind of first argument, kind of result elements, extra args kinds)
+        "vertex_to_vertices": ("vertex", "vertex"), "vertex_to_edges": ("vertex", "edge"), "vertex_to_faces": ("vertex", "face"),
+        "face_to_edges": ("face", "edge"), "face_to_faces": ("face", "face"),
+    }
+    cls = repo.cls(VOL, "VolumeMesh._BoundaryConnectivity")
+    n = 0
+    for fn in [st for st in cls.body if isinstance(st, ast.FunctionDef) and st.name in kinds]:
+        akind, rkind = kinds[fn.name]
+        site = ctx.site(VOL, fn)
+        ps = au.params(fn, skip_self=True)
+        n += 1
+        arg_ok = False
+        bname = None
+        for st in fn.body:
+            if isinstance(st, ast.Assign) and isinstance(st.targets[0], ast.Name) and isinstance(st.value, ast.Call) \
+                    and au.call_tail(st.value) == "get" and au.src(st.value.func.value) == f"self.m2b_{akind}" \
+                    and au.src(st.value.args[0]) == ps[0]:
+                arg_ok, bname = True, st.targets[0].id
+        ctx.check(arg_ok, "C03-D1", site, f"{fn.name}: the {akind} argument is not translated with self.m2b_{akind}",
+                  "queries are asked with indices of the volume mesh and answered with indices of the volume mesh")
+        rets = [st for st in fn.body if isinstance(st, ast.Return) and isinstance(st.value, ast.ListComp)]
+        res_ok = False
+        if rets:
+            v = rets[-1].value
+            x = v.generators[0].target.id if isinstance(v.generators[0].target, ast.Name) else None
+            res_ok = isinstance(v.elt, ast.Subscript) and au.src(v.elt.value) == f"self.b2m_{rkind}" and au.src(v.elt.slice) == x
+            # the inner query is made with the translated argument
+            inner = au.src(v.generators[0].iter)
+            b = sym.Bindings(fn)
+            inner_r = au.src(b.resolve(v.generators[0].iter, at=rets[-1], keep=(bname,)))
+            res_ok = res_ok and bname is not None and (f"({bname}" in inner_r) and ps[0] not in au.names(b.resolve(v.generators[0].iter, at=rets[-1], keep=(bname,)))
+        ctx.check(res_ok, "C03-D1", site, f"{fn.name}: results are not translated back with self.b2m_{rkind} (or the query is not made with the boundary index)",
+                  "mixing the two directions of the index maps answers with indices of the wrong mesh", note=f"{fn.name}: m2b_{akind} in, b2m_{rkind} out")
+    ctx.require_count("C03-D1 translated queries", n, 5)
